@@ -85,6 +85,18 @@ def run(unit, em):
                     b = strip((n.get('ch') or [None])[0])
                     return b is not None and b.get('d') == topv['d']
 
+                def is_reset_plain(n):
+                    if n['k'] == 'CXXMemberCallExpr' and method_name(n) in RESET and is_node(n.get('obj')) and on_field(strip(n['obj']) or {}):
+                        return True
+                    return n['k'] == 'CXXOperatorCallExpr' and n.get('op') == '=' and bool(n.get('args')) and on_field(strip(n['args'][0]) or {})
+
+                def is_use_plain(n):
+                    if n['k'] == 'CXXMemberCallExpr' and is_node(n.get('obj')) and on_field(strip(n['obj']) or {}):
+                        return method_name(n) not in RESET
+                    if n['k'] == 'CXXOperatorCallExpr' and n.get('args') and on_field(strip(n['args'][0]) or {}):
+                        return n.get('op') != '='
+                    return False
+
                 def is_reset(n):
                     if n['k'] == 'CXXMemberCallExpr' and method_name(n) in RESET and is_node(n.get('obj')) and on_field(strip(n['obj']) or {}):
                         return True
@@ -121,6 +133,36 @@ def run(unit, em):
                     return ok_
 
                 def passes_to_resetter(n):
+                    if n['k'] == 'CXXOperatorCallExpr' and n.get('op') == '()':
+                        # a local lambda that captured the frame by reference and empties the field before it uses it
+                        from .prov import callee_view
+                        cv = callee_view(unit, fn, n)
+                        if cv and cv[2] is not None:
+                            lcfg = cv[2]
+                            ok_, _ = must_pass_through(lcfg, (lcfg.entry, 0), is_use_plain, is_reset_plain, start_after=False)
+                            touched = any(on_field(x) for x in walk(cv[1]) if x['k'] == 'MemberExpr')
+                            if ok_ and touched:
+                                return True
+                            # the field handed to the lambda by reference: does the lambda empty that parameter first?
+                            for i_, a_ in enumerate(cv[3]):
+                                if on_field(strip(a_) or {}) and i_ < len(cv[0]):
+                                    pd_ = cv[0][i_]
+
+                                    def lp_reset(x, pd_=pd_):
+                                        if x['k'] == 'CXXMemberCallExpr' and method_name(x) in RESET and (strip(x.get('obj')) or {}).get('d') == pd_:
+                                            return True
+                                        return x['k'] == 'CXXOperatorCallExpr' and x.get('op') == '=' and bool(x.get('args')) and (strip(x['args'][0]) or {}).get('d') == pd_
+
+                                    def lp_use(x, pd_=pd_):
+                                        if x['k'] != 'DeclRefExpr' or x.get('d') != pd_:
+                                            return False
+                                        par = x.get('_p')
+                                        while par is not None and par['k'] in ('ImplicitCastExpr', 'ParenExpr'):
+                                            par = par.get('_p')
+                                        return not (par is not None and lp_reset(par))
+                                    if must_pass_through(lcfg, (lcfg.entry, 0), lp_use, lp_reset, start_after=False)[0]:
+                                        return True
+                        return False
                     if n['k'] not in ('CallExpr', 'CXXMemberCallExpr') or n.get('q') == 'std::swap':
                         return False
                     pk = n.get('pk', '')
